@@ -86,7 +86,17 @@ func (e *Engine) VerifyFunc(full string) *FuncResult {
 		e.entryAlloc = st.Alloc
 		pre := &specCtx{e: e, st: st, heap: st.Heap, oldHeap: st.Heap, oldAlloc: st.Alloc, env: env, pkg: pkg}
 		// global invariants and axioms
-		e.assumeGlobals(st, pre)
+		isInit := fn.Name() == "init" && fn.Synthetic != ""
+		if isInit {
+			// the package initializer establishes the global invariants of its package
+			if g, ok := fn.Pkg.Members["init$guard"].(*ssa.Global); ok {
+				st.Heap[globClass(g, "", Leaves(types.Typ[types.Bool])[0])] = tb.False()
+			}
+			e.initPkg = funcPkgPath(fn)
+			defer func() { e.initPkg = "" }()
+		} else {
+			e.assumeGlobals(st, pre)
+		}
 		if ct != nil {
 			for _, rq := range ct.Requires {
 				e.assume(st, e.evalClause(pre, rq))
@@ -151,6 +161,19 @@ func (e *Engine) atReturn(st *State, fn *ssa.Function, ct *Contract, env map[str
 	fr := e.cur
 	fr.Returns++
 	e.canary(st, "cover.return", fn.Pos())
+	if e.initPkg != "" {
+		gc := &specCtx{e: e, st: st, heap: st.Heap, oldHeap: e.entryHeap, oldAlloc: e.entryAlloc, env: map[string]specBind{}, pkg: pkg}
+		n := 0
+		for _, g := range e.Specs.Globals {
+			if g.Pkg != e.initPkg {
+				continue
+			}
+			n++
+			e.oblige(st, "post", fmt.Sprintf("global.%d", n), fn.Pos(), e.evalClause(gc, g.Clause), "global invariant established by package initialisation: "+g.Clause.Src)
+		}
+		e.pathEnd()
+		return
+	}
 	if ct == nil {
 		e.pathEnd()
 		return
